@@ -591,7 +591,7 @@ func varsTok(vs []ldVar) string {
 	return strings.Join(out, " ")
 }
 
-func caseLine(d *ldCase) string {
+func loadCaseLine(d *ldCase) string {
 	var b strings.Builder
 	if d.Op == "refs" {
 		fmt.Fprintf(&b, "load.refs %d %d", d.Root, len(d.Files))
@@ -623,7 +623,7 @@ func caseLine(d *ldCase) string {
 
 // ---------------------------------------------------------------- self-check: YAML → abstract
 
-func absVars(vs *ast.Vars) []ldVar {
+func loadAbsVars(vs *ast.Vars) []ldVar {
 	var out []ldVar
 	if vs == nil {
 		return nil
@@ -652,7 +652,7 @@ func absSegs(d string) []int {
 // abstractFile maps a decoded Taskfile back to the abstract form; include targets are
 // resolved through byPath (path relative to the tree root → id).
 func abstractFile(f *ldFile, tf *ast.Taskfile, byPath map[string]int) ldFile {
-	g := ldFile{ID: f.ID, Base: f.Base, Dir: f.Dir, Dotenv: len(tf.Dotenv) > 0, Vars: absVars(tf.Vars), Env: absVars(tf.Env)}
+	g := ldFile{ID: f.ID, Base: f.Base, Dir: f.Dir, Dotenv: len(tf.Dotenv) > 0, Vars: loadAbsVars(tf.Vars), Env: loadAbsVars(tf.Env)}
 	if tf.Version != nil {
 		g.Version = int(tf.Version.Major())
 		if tf.Version.Minor() != 0 {
@@ -666,11 +666,11 @@ func abstractFile(f *ldFile, tf *ast.Taskfile, byPath map[string]int) ldFile {
 			id = -1
 		}
 		g.Includes = append(g.Includes, ldInclude{NS: ns, File: id, Dir: absSegs(inc.Dir), Optional: inc.Optional, Internal: inc.Internal,
-			Flatten: inc.Flatten, Advanced: inc.AdvancedImport, Aliases: inc.Aliases, Excludes: inc.Excludes, Vars: absVars(inc.Vars)})
+			Flatten: inc.Flatten, Advanced: inc.AdvancedImport, Aliases: inc.Aliases, Excludes: inc.Excludes, Vars: loadAbsVars(inc.Vars)})
 	}
 	for name, t := range tf.Tasks.All(nil) {
 		at := ldTask{Name: name, Deps: depNames(t.Deps), Aliases: t.Aliases, Internal: t.Internal, Dir: absSegs(t.Dir),
-			Attrs: decodeAttrs(t), Vars: absVars(t.Vars)}
+			Attrs: decodeAttrs(t), Vars: loadAbsVars(t.Vars)}
 		for _, c := range t.Cmds {
 			if c.Task != "" {
 				at.Cmds = append(at.Cmds, ldCmd{Task: c.Task})
@@ -722,7 +722,7 @@ func evalLoad(d ldCase) (string, string) {
 		byPath[missingBase(id)] = id
 		return missingBase(id)
 	}
-	cl := caseLine(&d)
+	cl := loadCaseLine(&d)
 	// ids must follow the order of the locations (the canonical merge order sorts by location)
 	for i := range d.Files {
 		for j := range d.Files {
